@@ -73,7 +73,7 @@ TYPES = [
     T("size_t"), T("Value", ns=("T",)), T("Opt", T("Value", ns=("This",)), ns=("std",)),
 ]
 NTY = len(TYPES)
-DEFAULTS = [None, "3", "-1.5e3", '"a, b; c"', "{1, 2, 3}", "a::Cls(1, x)", "std::vector<int>()", "a::b::kConst", "(2 + 3)", "'}'", "Foo<A, B>::bar[3]"]
+DEFAULTS = [None, "3", "-1.5e3", '"a, b; c"', "{1, 2, 3}", "a::Cls(1, x)", "std::vector<int>()", "a::b::kConst", "(2 + 3)", "'}'", "Foo<A, B>::bar[3]", '"two  spaces   and\\ttab"']
 ND = len(DEFAULTS)
 RETS = [("one", T("void")), ("one", T("int")), ("one", T("Cls", ns=("a",), const=True, suf="&")), ("pair", T("int"), T("Cls", ns=("a",), suf="*")),
         ("one", T("vector", T("Cls"), ns=("std",))), ("pair", T("Cls", const=True), T("double", suf="&")), ("one", T("This")), ("one", T("T", suf="*"))]
@@ -241,7 +241,7 @@ def c01_class(k1: int, k2: int, t0: int, d0: int, r: int, base: int, virt: int, 
     return ok
 
 
-TOP_KINDS = ["class", "fwd", "fwd_virtual_base", "include", "typedef", "function", "enum", "variable", "variable_default", "namespace", "fwd_ns"]
+TOP_KINDS = ["class", "fwd", "fwd_virtual_base", "include", "typedef", "function", "enum", "variable", "variable_default", "namespace", "fwd_ns", "fwd_of_class", "fwd_ns_of_class"]
 NTK = len(TOP_KINDS)
 
 
@@ -252,6 +252,12 @@ def top_decl(kind, i, t0, d0):
         return "class %s { };" % nm, lambda parent: ("class", nm, parent, None, False, None, (), (), (), (), (), (), ())
     if kind == "fwd":
         return "class %s;" % nm, lambda parent: ("forward", x_typename((), nm), None, False, parent)
+    if kind == "fwd_of_class":          # forward declaration whose name is also defined as a class in the same scope (D0 / D1 / D2)
+        other = "D%d" % ((i + 1) % 3)
+        return "class %s;" % other, lambda parent: ("forward", x_typename((), other), None, False, parent)
+    if kind == "fwd_ns_of_class":       # a qualified forward declaration sharing only its last component with a sibling class
+        other = "D%d" % ((i + 2) % 3)
+        return "class lib::%s;" % other, lambda parent: ("forward", x_typename(("lib",), other), None, False, parent)
     if kind == "fwd_ns":
         return "class q::r::%s;" % nm, lambda parent: ("forward", x_typename(("q", "r"), nm), None, False, parent)
     if kind == "fwd_virtual_base":
